@@ -65,6 +65,17 @@ def _r10_r11(ctx):
                           "(to_canonical, to_ipv4, ...) changes which family's containment is used — an IPv4-mapped peer then no longer "
                           "matches `::/0`" % show(a)[:120])
     ctx.floor("R10", "prefix containment tests in the rule matcher", n, 1)
+    # ... and ip() itself reports the socket address of its own family
+    CONV = ("to_canonical", "to_ipv4", "to_ipv4_mapped", "to_ipv6_mapped", "to_ipv6_compatible")
+    impls = [b for b in P.bodies.values() if b.id.endswith("NetAddrExt>::ip") and "erbium_net" in b.id]
+    for b in impls:
+        ctx.saw(b)
+        conv = sorted({(callee_name(tm) or "").rsplit("::", 1)[-1] + " at " + P.rel(tm["sp"]) for x in P.family(b.id) for _, tm in x.calls()
+                       if (callee_name(tm) or "").rsplit("::", 1)[-1] in CONV})
+        ctx.check(not conv, "R10", "peer-address-reported-in-its-own-family", ctx.where(b),
+                  "NetAddrExt::ip() must hand out the socket address as it is; it converts between families (%s), so an IPv4-mapped "
+                  "peer is matched as IPv4 and no longer falls under the IPv6 prefixes that contain it" % (conv or "-"))
+    ctx.floor("R10", "implementations of the peer-address accessor", len(impls), 1)
     # ---- R11: the built-in rule list applies only when none was configured (an explicit empty list means: nobody)
     n = 0
     for b, bb, idx, st in find_aggs(P, "erbium::config::Config"):
